@@ -610,11 +610,12 @@ def c08_jobs(tier, seed):
     for _ in range(60 if tier == "quick" else 600):
         jobs.append({"pkg_short": "route", "body": "VH_C08_register",
                      "params": {"history": "\n".join(c08_history(rng)), "slots": 4, "family": "seeded"}})
+    jobs.append({"pkg_short": "flamego", "body": "VH_C08_method", "params": {"mlen": 7}, "max_paths": 300000})
     return jobs
 
 
 SPECS["C08"] = Spec(
-    "C08", ["route/parse.go", "route/oracle.go", "route/c08.go"], c08_jobs,
+    "C08", ["route/parse.go", "route/oracle.go", "route/oracle_api.go", "route/c08.go", "flamego/router.go", "flamego/c12.go", "flamego/c08.go"], c08_jobs,
     assumptions=[
         "real AddRoute/addNextSegment/addSubtree/addLeaf/newTree/newLeaf/constructMatchStyleRegex/getParentBindSet/regexp.Compile executed on ASTs of the harness parser (validated natively against participle per route string)",
         "every identifier (static literal, bind name) of a registration history is one symbolic byte in [a-d] shared per slot, so every equality pattern among up to 4 names is decided by the solver; regex texts and shapes are concrete per job",
@@ -625,4 +626,33 @@ SPECS["C08"] = Spec(
     bounds=lambda tier: {"history": "<=3 routes x <=3 segments", "names": "4 slots, each any of a..d", "curated_histories": len(C08_CURATED),
                          "seeded_histories": 60 if tier == "quick" else 600},
     rule="one job per history shape; all assignments of names to slots",
+)
+
+
+# --------------------------------------------------------------------------- C18
+def c18_jobs(tier, seed):
+    q = 2 if tier == "quick" else 3
+    jobs = [{"pkg_short": "flamego", "body": "VH_C18_query", "params": {"vlen": q, "acc": a}, "max_paths": 400000}
+            for a in ("query", "trim", "unescape", "strings")]
+    jobs += [
+        {"pkg_short": "flamego", "body": "VH_C18_typed", "params": {}},
+        {"pkg_short": "flamego", "body": "VH_C18_escape", "params": {"vlen": 2 if tier == "quick" else 3}, "max_paths": 400000},
+        {"pkg_short": "flamego", "body": "VH_C18_cookie", "params": {"vlen": 2 if tier == "quick" else 3, "part": "roundtrip"}, "max_paths": 400000},
+        {"pkg_short": "flamego", "body": "VH_C18_cookie", "params": {"vlen": 0, "part": "stored"}, "max_paths": 400000},
+    ]
+    return jobs
+
+
+SPECS["C18"] = Spec(
+    "C18", ["flamego/c13.go", "flamego/c18.go", "route/parse.go"], c18_jobs,
+    assumptions=[
+        "real accessors (Param*, Query*, SetCookie, Cookie) on a context built directly; net/url ParseQuery/QueryEscape/QueryUnescape, strings.TrimSpace, url.Values.Get executed from stdlib SSA",
+        "string accessors: the query value is any byte string except the five query metacharacters & ; % + = (so that \"q=\"+v parses to v); presence and default symbolic",
+        "typed accessors: value drawn from a 24-entry menu of hostile numerals; strconv runs on the host for concrete text; the oracle is strconv itself (\"the standard parsing rules\")",
+        "cookie round trip as lemmas: L1 QueryEscape's output alphabet, L2 unescape∘escape = id (both on real net/url, all byte values), L3 flamego's SetCookie/Cookie; L4 (net/http writes and reads cookie values over L1's alphabet unchanged) is ASSUMED from net/http's documented valid cookie bytes: http.Cookie.String and Request.Cookie are stubbed (net/http's package initialisers are not run in the interpreter); the native replay runs the real net/http",
+        "not asserted (statement silent): QueryStrings for a present-but-empty parameter, QueryTrim of a blank-only value with default, out-of-range numbers beyond strconv's clamping",
+    ],
+    bounds=lambda tier: {"query_value_len": "0..%d" % (2 if tier == "quick" else 3), "cookie_value_len": "0..%d (all byte values)" % (2 if tier == "quick" else 3),
+                         "escape_lemma_len": "0..%d (QueryEscape treats bytes independently)" % (2 if tier == "quick" else 3), "stored_cookie_text": "0..3 bytes over [a-z0-9%+]"},
+    rule="every value within the bound x presence x default; menu texts for typed accessors",
 )
